@@ -28,30 +28,47 @@ CFG = dict(
     sig=c18_sig,
     rule=("{CopyFile, MoveFile} x 10 destination kinds (missing, other file, same path, './' '//' 'd/../' spellings, symlink to "
           "source, hard link, directory, parent missing, parent is a file, symlink to another file) x {same device, other "
-          "device (/dev/shm; rename fails with EXDEV; kinds that need one device excluded)} x sizes {0, 1, 4 KiB, 1 MiB (thorough "
-          "up to 4 MiB)} and seeded random sizes, plus a missing source; real files, one case = one call on a freshly arranged "
-          "directory; non-trivial = distinct case lines"),
+          "device (/dev/shm; rename fails with EXDEV; kinds that need one device excluded)} x sizes {0, 1, 10, 4 KiB, 32 KiB, "
+          "32 KiB+1, 64 KiB, 1 MiB} + seeded random sizes (thorough: 16 sizes up to 4 MiB + 24 random) x content classes chosen "
+          "independently of the size (random, all zeros, all 0xFF, random head + zero tail starting at/just before/just after the "
+          "last 32 KiB and 4 KiB boundary, zero head + random tail, alternating zero/data 4 KiB and 32 KiB blocks; all 15 classes "
+          "on the kinds that transfer bytes, random + zeros on the others), a missing source, and real faults without hooks: "
+          "destination /dev/full and a symlink to it (create succeeds, every write fails with ENOSPC), and - unless running as "
+          "root - an unwritable destination directory and an unreadable source; real files, one case = one call on a freshly "
+          "arranged directory; non-trivial = distinct case lines"),
     trusted_base=[HARNESS_TB, EXTRACT_TB,
-                  "Model/FileOps.v as the reading of open/stat/create(O_TRUNC)/rename/unlink semantics (POSIX, Linux); tied to the "
-                  "kernel on the explored scenarios: the observed outcome class must equal the model's for every case",
-                  "the file systems used by the harness: the one holding /verif/.build and the tmpfs /dev/shm"],
-    assumptions=["PARTIAL: outside the model, hence not proved: short or failing writes (ENOSPC, EIO, EDQUOT, signals), "
-                 "permission errors, files changed by other processes during the call, crash consistency",
-                 "MoveFile's theorem takes a source path that is itself a hard link to a regular file (a source that is a symbolic "
+                  "Model/FileOps.v as the reading of open/stat/create(O_TRUNC)/rename/unlink semantics (POSIX, Linux) and of how "
+                  "a system call fails (without effect; the data copy possibly after a prefix was stored); tied to the kernel on "
+                  "the explored scenarios: the observed outcome class must equal the model's for every case",
+                  "the file systems used by the harness: the one holding /verif/.build, the tmpfs /dev/shm, devtmpfs (/dev/full)"],
+    assumptions=["PARTIAL: outside the model, hence not proved: files changed by other processes during the call, crash consistency",
+                 "faults: every call site (rename, open, src.Stat, os.Stat(dest), create, io.Copy incl. partial write, remove) may "
+                 "fail, chosen by a universally quantified oracle - except a spurious failure of os.Stat(dest) while dest really is "
+                 "the source: the code treats any Stat error as 'not there' and truncates; shown as copy_stat_fault_on_alias_refuted "
+                 "(a real, narrow window of the repaired code; cannot be provoked without hooks)",
+                 "a failing call has no effect on the file system (only io.Copy may leave a prefix behind)",
+                 "MoveFile's theorems take a source path that is itself a hard link to a regular file (a source that is a symbolic "
                  "link is moved as a link; outside the property's quantifier)",
                  "os.SameFile is modelled as equality of inode identity (device, inode number)",
-                 "inode numbers at or above the allocation mark are unused (wf); the kernel allocates a fresh inode for a new file"],
+                 "inode numbers at or above the allocation mark are unused (wf); the kernel allocates a fresh inode for a new file",
+                 "permission-fault scenarios (unwritable directory, unreadable source) are skipped when the harness runs as root "
+                 "(stats: permission_scenarios); a failing final Remove is covered by theorem C18_move_remove_fails only"],
 )
 CFG["manifest"] = dict(
-    text=("Proof (partial): Coq theorems C18_copy and C18_move hold for every file-system state, every aliasing relation between the "
-          "two paths (same entry, symlink chains, hard links, none), every device layout and every content, under the system-call "
-          "model of Model/FileOps.v: nil => destination reads the original bytes (and for CopyFile the source is unchanged, for "
-          "MoveFile the source entry is gone or was an alias); error => source present and intact; other files untouched. "
-          "copy_without_samefile_refuted shows the same model loses content without the os.SameFile test (the repaired defect). "
-          "Tie: both functions are run on real files for all scenario kinds, two devices and sizes 0..1 MiB (thorough 4 MiB); the "
-          "observed outcome class is judged by the property statement and must equal the model's."),
-    note=("Partial: short writes, ENOSPC/EIO, permissions, concurrent modification and crashes are not modelled. Trusted: Coq kernel; "
-          "the system-call semantics in Model/FileOps.v (validated against the kernel on every explored scenario); extraction + "
-          "OCaml glue (cross-checked by vm_compute sample); Go harness."),
-    technique="Coq proof over an abstract file system (slots/inodes/devices, aliasing as data) + real-file correspondence on two devices",
+    text=("Proof (partial): Coq theorems C18_copy_faults, C18_move_faults, C18_move_remove_fails (and their fault-free corollaries "
+          "C18_copy, C18_move) hold for every file-system state, every aliasing relation between the two paths (same entry, symlink "
+          "chains, hard links, none), every device layout, every content and every fault oracle over the call sites (failure without "
+          "effect, partial write then error), under the system-call model of Model/FileOps.v: nil => destination reads the original "
+          "bytes (CopyFile: source unchanged; MoveFile: source entry gone or was an alias); error at any step => source present and "
+          "intact, the source entry is removed only when the destination is complete, a failing final Remove leaves both copies; "
+          "other files untouched; the destination itself may be left truncated or partial on error. "
+          "copy_without_samefile_refuted: the same model loses content without the os.SameFile test (the repaired defect); "
+          "copy_stat_fault_on_alias_refuted: the one fault excluded from the theorems (os.Stat(dest) failing on an alias) loses content. "
+          "Tie: both functions are run on real files for all scenario kinds, two devices, sizes 0..1 MiB (thorough 4 MiB), 15 content "
+          "classes (zero runs around block boundaries) and real ENOSPC / permission faults; the observed outcome class is judged by the "
+          "property statement and must equal the model's."),
+    note=("Partial: concurrent modification by other processes and crashes are not modelled. Trusted: Coq kernel; the system-call and "
+          "fault semantics in Model/FileOps.v (validated against the kernel on every explored scenario); extraction + OCaml glue "
+          "(cross-checked by vm_compute sample); Go harness."),
+    technique="Coq proof over an abstract file system (slots/inodes/devices, aliasing and faults as data) + real-file correspondence on three devices",
 )
